@@ -23,7 +23,7 @@ for k in range(K):
 def run_patch(patch, plist=None):
     k = slots.get()
     try:
-        env = dict(os.environ, MUT_WT='/tmp/ddo-par-%d' % k, VERIF_CACHE_DIR='/tmp/ddo-par-%d-cache' % k)
+        env = dict(os.environ, MUT_WT=os.environ.get('PAR_PREFIX', '/tmp/ddo-par-') + '%d' % k, VERIF_CACHE_DIR=os.environ.get('PAR_PREFIX', '/tmp/ddo-par-') + '%d-cache' % k)
         r = subprocess.run([os.path.join(HERE, 'mut.sh'), patch, '--'] + (plist or ALL), stdout=subprocess.PIPE, stderr=subprocess.STDOUT, text=True, env=env)
         out = r.stdout
     finally:
